@@ -243,4 +243,4 @@ def TEXT(value, format_text):
 def TRIM(value):
     if not isinstance(value, string_types):
         return value
-    return re.sub(' {2,}', ' ', value).strip()
+    return re.sub(' {2,}', ' ', value).strip(' ')
